@@ -22,3 +22,15 @@ Theorem crate_order_scope_sound : forall o ic sw y r (d : doc),
 Proof. exact C12_order.crate_order_scope_sound. Qed.
 Check crate_order_scope_sound.
 Print Assumptions crate_order_scope_sound.
+
+(* all sixteen switch sets (Properties/C01_matrix.v scope_all_sound at the crate's order): this is
+   the statement the runner's `(th ..)` flag stands for -- for a rule and switch set it marks, the
+   optimised rule returns and gives the unoptimised verdict on every document *)
+Theorem crate_order_scope_all_sound : forall o ic sw y r (d : doc),
+  C01.H_strip o ->
+  load_rule o ic y = Ok r -> r_optimised r = false ->
+  Scope.c01_scope_all o rust_ord sw (r_det r) = true ->
+  exists r', optimise o rust_ord sw r = Ok r' /\ matches o r' d = matches o r d.
+Proof. exact C12_order.crate_order_scope_all_sound. Qed.
+Check crate_order_scope_all_sound.
+Print Assumptions crate_order_scope_all_sound.
